@@ -41,7 +41,7 @@ impl FileRec {
             uid: 1000,
             gid: 100,
             ino: 4242,
-            nlink: 1,
+            nlink: 3,
             size: 4096,
             blocks: 8,
             atime: now.saturating_sub(1_000),
@@ -51,9 +51,11 @@ impl FileRec {
             fid: "[0x200000401:0x1:0x0]".into(),
             pools: vec!["pool1".into()],
             xattrs: vec![("user.tag".into(), "v1".into())],
-            stripe_count: 1,
+            // every numeric attribute of the base record is different from every other one, so that
+            // a comparison or a directive reading the wrong attribute shows on the very first file
+            stripe_count: 4,
             stripe_size: 1 << 20,
-            mirror_count: 1,
+            mirror_count: 2,
             empty: false,
             readable: true,
             writable: true,
